@@ -109,6 +109,29 @@ def rowBytes : Kind → Nat → Nat
   | .rgb8, w => 3 * w
   | .bit1, w => (w + 7) / 8
 
+/-- `h` rows of `bpl` bytes each. -/
+def splitRows (bpl : Nat) : Nat → Bytes → List Bytes
+  | 0, _ => []
+  | h + 1, data => data.take bpl :: splitRows bpl h (data.drop bpl)
+
+/-- DeviceGray sample `v` as an RGB triple. -/
+def grayPx (v : UInt8) : Bytes := [v, v, v]
+/-- 1-bit DeviceGray sample: 0 = black, 1 = white. -/
+def bitPx (b : Nat) : Bytes := [UInt8.ofNat (255 * b), UInt8.ofNat (255 * b), UInt8.ofNat (255 * b)]
+
+/-- What one stored row of samples means, as R,G,B triples (the first `w` samples of the row;
+    for 1-bit images the pad bits of the last byte are not pixels). -/
+def rowRGB (k : Kind) (w : Nat) (row : Bytes) : Bytes :=
+  match k with
+  | .gray8 => row.flatMap grayPx
+  | .rgb8 => row
+  | .bit1 => ((row.flatMap bitsOfByte).take w).flatMap bitPx
+
+/-- All pixels, top-down, left to right, as R,G,B. -/
+def samplesRGB (k : Kind) (w h : Nat) (data : Bytes) : Bytes :=
+  (splitRows (rowBytes k w) h data).flatMap (rowRGB k w)
+
+/-- The same meaning written pixel by pixel with explicit indices (row `r`, column `c`). -/
 def pixel (k : Kind) (w : Nat) (data : Bytes) (r c : Nat) : Bytes :=
   match k with
   | .gray8 => let v := data.getD (r * w + c) 0; [v, v, v]
@@ -119,8 +142,7 @@ def pixel (k : Kind) (w : Nat) (data : Bytes) (r c : Nat) : Bytes :=
     let v := UInt8.ofNat (255 * (byte.toNat / 2 ^ (7 - c % 8) % 2))
     [v, v, v]
 
-/-- All pixels, top-down, left to right, as R,G,B. -/
-def samplesRGB (k : Kind) (w h : Nat) (data : Bytes) : Bytes :=
+def samplesRGBIdx (k : Kind) (w h : Nat) (data : Bytes) : Bytes :=
   (List.range h).flatMap (fun r => (List.range w).flatMap (fun c => pixel k w data r c))
 
 end PdfVerif.Bmp
